@@ -4,10 +4,10 @@ CONSTANTS
   Cid <- MCCid
   Qof <- MCQof
   Transport = "tcp"
-  AnswerRcode = "ok"
-  CheckQuestion = FALSE
+  AnswerRcode = "nx"
+  CheckQuestion = TRUE
   MaxSends = 4
   MaxSocks = 3
   MaxWid = 2
   MaxGen = 3
-INVARIANTS ReplyMatches CacheTruthful OneResolution ClosedOnce RetiredGetsClosed
+INVARIANTS ReplyMatches CacheTruthful OneResolution ClosedOnce RetiredGetsClosed EmitAny
